@@ -59,7 +59,11 @@ def run(ctx):
     ctx.require(gc is not None, 'anchor vanished: BeartypeSourceFileLoader.get_code')
     patches = [a for a in walk_shallow(gc) if isinstance(a, ast.Assign) and norm(a.targets[0]).endswith('.cache_from_source')]
     patch = [a for a in patches if 'original' not in norm(a.value)]
-    ctx.require(len(patch) == 1, f'get_code: expected one patch assignment, found {len(patch)}')
+    ctx.require(len(patch) >= 1, 'get_code: no patch assignment found')
+    # a second non-restoring assignment (e.g. inside the finally block) is itself the violation
+    ctx.ob('C16.R3', 'get_code:one-patch-assignment', lm.where(patch[-1]),
+           'the cache-path function is replaced by the beartype variant exactly once per call', len(patch) == 1,
+           f'{len(patch)} assignments install a non-original function: {[f"line {a.lineno}: {norm(a)[:70]}" for a in patch]}')
     p = patch[0]
     blk = parent(p).body
     i = blk.index(p)
